@@ -1,5 +1,6 @@
 import DaliVerif.Proofs.GearSeqC14
 import DaliVerif.Gen.GearSeqEnums
+import DaliVerif.Props.GearCmds
 /-!
 # C14 — colour (DT8) sequences carry 16-bit values byte-exactly and in order
 
@@ -125,19 +126,21 @@ theorem query_spec_gen (b : Bus) (hwf : ColourWF b) (a : Addr) :
       queryColourPost b a s.2 (runBus (queryColour (.addr a) (some s.2)) b) = true :=
   fun s _ => queryColourPost_holds b hwf a s.2
 
-def sampleCmds : List Cmd :=
-  let s0 := Addr.short 0
-  [.dtr0 0, .dtr1 0, .dtr2 0, .enableDT 0, .terminate, .initialise 0, .randomise, .compare, .withdraw,
-   .searchH 0, .searchM 0, .searchL 0, .programShort 0, .verifyShort 0, .setShortAddress s0,
-   .queryGearPresent s0, .queryDeviceType s0, .queryNextDeviceType s0, .queryGroups07 s0, .queryGroups815 s0,
-   .addToGroup s0 0, .removeFromGroup s0 0, .queryActualLevel s0, .queryContentDTR0 s0,
-   .setTempTc s0, .activate s0, .storeTcLimit s0, .queryColourValue s0]
+def sampleCmds : List Cmd := GearCmds.sampleCmds
 
 /-- the frames, class names and device types the model gives its commands are those the
 working tree's command classes carry (regenerated on every run) -/
 theorem cmd_frames_gen :
     sampleCmds.map (fun c => (c.cls, c.frame, c.devicetype)) =
-      Gen.GearSeqEnums.cmdSamples.map (fun r => (r.1, r.2.1, r.2.2.1)) := by decide +kernel
+      Gen.GearSeqEnums.cmdSamples.map (fun r => (r.1, r.2.1, r.2.2.1)) := GearCmds.cmd_frames_gen
+
+/-- the `sendtwice` flag of every command class the gear sequences use is what the standard requires -/
+theorem cmd_sendtwice_gen :
+    sampleCmds.map (fun c => (c.cls, c.twiceRequired)) =
+      Gen.GearSeqEnums.cmdSamples.map (fun r => (r.1, r.2.2.2.1)) := GearCmds.cmd_sendtwice_gen
+
+theorem execFlagged_eq_exec (b : Bus) (c : Cmd) : Bus.execFlagged b c c.twiceRequired = Bus.exec b c :=
+  GearCmds.execFlagged_eq_exec b c
 
 theorem addr_bytes_gen :
     [Addr.short 0, .short 63, .group 0, .group 15, .broadcast, .unaddressed].map
